@@ -99,8 +99,8 @@ CHECKS['C14'] = dict(
 )
 CHECKS['C18'] = dict(
     level='exploration',
-    technique='runtime monitoring: real connlimiter over harness listeners with seeded accept/close/double-close/listener-close schedules, begin/end-marked event log, hysteresis model over all orderings consistent with the marks, quiescent points established by goroutine dumps (no timing verdicts); real TCP/TLS servers with a gated handler for the pipeline bound',
-    text="All (stop, resume) with 1<=stop<=4 x 1-3 listeners x 560 schedules: open+pending never exceeds stop, no accept while stopped, waiters proceed after resume and are released by listener close, a connection is released exactly once; pipelined bursts never exceed n concurrent handler entries per connection and every query is answered once. Extended: close-window probes parked at the limiter's own log record, failing inner closes, service-level phases through dnssvc (bind data listen configs, failed TLS handshakes, pipeline-slot time-outs, per-connection concurrency bound on every listener, accept during shutdown).",
+    technique='runtime monitoring: real connlimiter over harness listeners with seeded accept/close/double-close/listener-close schedules, begin/end-marked event log, hysteresis model over all orderings consistent with the marks, quiescent points established by goroutine dumps (no timing verdicts); real TCP/TLS servers with a gated handler for the pipeline bound; the real binary on config.dist.yaml variants with a holding stub upstream as the observer of per-connection concurrency',
+    text="All (stop, resume) with 1<=stop<=4 x 1-3 listeners x 560 schedules: open+pending never exceeds stop, no accept while stopped, waiters proceed after resume and are released by listener close, a connection is released exactly once; pipelined bursts never exceed n concurrent handler entries per connection and every query is answered once. Extended: close-window probes parked at the limiter's own log record, failing inner closes, service-level phases through dnssvc (bind data listen configs, failed TLS handshakes, pipeline-slot time-outs, per-connection concurrency bound on every listener, accept during shutdown); binary phase: ratelimit.tcp.enabled x ratelimit.quic.enabled x max_pipeline_count as written in the file, burst on one plain-TCP / DoT connection, peak of distinct queries held by the stub upstream <= n (control: > n when disabled).",
     note='Progress is decided only at quiescent points (every actor parked in a blocking primitive, confirmed by repeated goroutine dumps); Go runtime wait-reason strings are trusted.',
     ref='2/C18',
 )
